@@ -8,7 +8,7 @@ import random
 import threading
 import time
 
-THREAD_LABELS = ('put', 'write', 'remove.before', 'remove', 'pop', 'utime')      # reached from executor / loader / writer threads
+THREAD_LABELS = ('put', 'write.begin', 'write', 'remove.before', 'remove', 'pop', 'utime')      # reached from executor / loader / writer threads
 
 
 class Controller:
